@@ -23,4 +23,398 @@ theorem dtype_table_is_hardware_rule (addr size : Nat) : dtype addr size = dtype
   have e2 : size % 4 % 2 = size % 2 := by omega
   rw [e1, e2]
 
+/-- a patch: bytes stored at an offset -/
+def applyAll (m : Mem) (ps : List (Nat × List Nat)) : Mem :=
+  ps.foldl (fun m p => writeMem m p.1 p.2) m
+
+def Agrees (t : Mem) (p : Nat × List Nat) : Prop :=
+  ∀ i, i < p.2.length → p.2.getD i 0 = t (p.1 + i)
+
+def InPatch (p : Nat × List Nat) (a : Nat) : Prop := p.1 ≤ a ∧ a < p.1 + p.2.length
+
+theorem applyAll_spec (t : Mem) (ps : List (Nat × List Nat)) :
+    ∀ (m : Mem), (∀ p ∈ ps, Agrees t p) → ∀ a,
+      ((∃ p ∈ ps, InPatch p a) → applyAll m ps a = t a) ∧
+      ((¬ ∃ p ∈ ps, InPatch p a) → applyAll m ps a = m a) := by
+  induction ps with
+  | nil => intro m _ a; simp [applyAll]
+  | cons p ps ih =>
+    intro m hag a
+    have hp : Agrees t p := hag p (by simp)
+    have ih' := ih (writeMem m p.1 p.2) (fun q hq => hag q (by simp [hq])) a
+    have hstep : applyAll m (p :: ps) = applyAll (writeMem m p.1 p.2) ps := rfl
+    rw [hstep]
+    by_cases hc : ∃ q ∈ ps, InPatch q a
+    · refine ⟨fun _ => ih'.1 hc, fun h => ?_⟩
+      exact absurd (by obtain ⟨q, hq, hi⟩ := hc; exact ⟨q, by simp [hq], hi⟩) h
+    · have e := ih'.2 hc
+      rw [e]
+      by_cases hin : InPatch p a
+      · refine ⟨fun _ => ?_, fun h => absurd ⟨p, by simp, hin⟩ h⟩
+        obtain ⟨h1, h2⟩ := hin
+        simp only [writeMem, h1, h2, and_self, if_true]
+        have := hp (a - p.1) (by omega)
+        rw [this]; congr 1; omega
+      · refine ⟨fun h => ?_, fun _ => ?_⟩
+        · obtain ⟨q, hq, hi⟩ := h
+          simp at hq
+          rcases hq with rfl | hq
+          · exact absurd hi hin
+          · exact absurd ⟨q, hq, hi⟩ hc
+        · unfold InPatch at hin
+          simp only [writeMem]
+          rw [if_neg hin]
+
+/-- `WCovers buf a data cs`: the commands `cs` are consecutive from address `a`, each non-empty,
+at most `buf` bytes, carries exactly its slice of `data`, and together they carry all of `data` -/
+def WCovers (buf : Nat) : Nat → List Nat → List Chunk → Prop
+  | _, data, [] => data = []
+  | a, data, c :: cs =>
+    c.addr = a ∧ 0 < c.size ∧ c.size ≤ buf ∧ c.size ≤ data.length ∧ c.data = data.take c.size ∧
+      c.dt = dtype c.addr c.size ∧ WCovers buf (a + c.size) (data.drop c.size) cs
+
+/-- read commands: same shape, the "data" is the number of bytes still to fetch -/
+def RCovers (buf : Nat) : Nat → Nat → List Chunk → Prop
+  | _, n, [] => n = 0
+  | a, n, c :: cs =>
+    c.addr = a ∧ 0 < c.size ∧ c.size ≤ buf ∧ c.size ≤ n ∧ c.dt = dtype c.addr c.size ∧
+      RCovers buf (a + c.size) (n - c.size) cs
+
+theorem readChunks_covers (buf : Nat) (hb : 0 < buf) :
+    ∀ fuel addr len, len ≤ fuel → RCovers buf addr len (readChunks buf fuel addr len) := by
+  intro fuel
+  induction fuel with
+  | zero => intro addr len h; have : len = 0 := by omega
+            subst this; simp [readChunks, RCovers]
+  | succ f ih =>
+    intro addr len h
+    unfold readChunks
+    by_cases hl : len > 0
+    · simp only [hl, if_true, RCovers]
+      refine ⟨trivial, by omega, by omega, by omega, trivial, ?_⟩
+      exact ih _ _ (by omega)
+    · have : len = 0 := by omega
+      subst this; simp [RCovers]
+
+theorem writeChunks_covers (buf : Nat) (hb : 0 < buf) :
+    ∀ fuel addr (data : List Nat), data.length ≤ fuel → WCovers buf addr data (writeChunks buf fuel addr data) := by
+  intro fuel
+  induction fuel with
+  | zero => intro addr data h
+            have : data = [] := List.eq_nil_of_length_eq_zero (by omega)
+            subst this; simp [writeChunks, WCovers]
+  | succ f ih =>
+    intro addr data h
+    unfold writeChunks
+    by_cases hl : data.length > 0
+    · simp only [hl, if_true, WCovers, List.length_take]
+      refine ⟨trivial, by omega, by omega, by omega, ?_, trivial, ?_⟩
+      · by_cases hbl : buf ≤ data.length
+        · rw [Nat.min_eq_left hbl]
+        · rw [Nat.min_eq_right (by omega), List.take_of_length_le (by omega), List.take_of_length_le (by omega)]
+      · have e : data.drop (min buf data.length) = data.drop buf := by
+          by_cases hbl : buf ≤ data.length
+          · rw [Nat.min_eq_left hbl]
+          · rw [Nat.min_eq_right (by omega), List.drop_of_length_le (by omega), List.drop_of_length_le (by omega)]
+        rw [e]
+        exact ih _ _ (by simp only [List.length_drop]; omega)
+    · have : data = [] := List.eq_nil_of_length_eq_zero (by omega)
+      subst this; simp [WCovers]
+
+
+theorem wcovers_facts (t : Mem) (buf : Nat) :
+    ∀ (cs : List Chunk) (a : Nat) (data : List Nat), WCovers buf a data cs →
+      (∀ i, i < data.length → data.getD i 0 = t (a + i)) →
+      (∀ c ∈ cs, Agrees t (c.addr, c.data)) ∧
+      (∀ x, (∃ c ∈ cs, InPatch (c.addr, c.data) x) ↔ (a ≤ x ∧ x < a + data.length)) := by
+  intro cs
+  induction cs with
+  | nil =>
+    intro a data h _
+    simp only [WCovers] at h
+    subst h
+    simp
+  | cons c cs ih =>
+    intro a data h ht
+    obtain ⟨h1, h2, h3, h4, h5, _, h6⟩ := h
+    have ih' := ih (a + c.size) (data.drop c.size) h6 (by
+      intro i hi
+      simp only [List.length_drop] at hi
+      have := ht (c.size + i) (by omega)
+      rw [List.getD_eq_getElem?_getD, List.getElem?_drop, ← List.getD_eq_getElem?_getD, this]
+      congr 1; omega)
+    have hlen : c.data.length = c.size := by rw [h5, List.length_take]; omega
+    refine ⟨?_, ?_⟩
+    · intro c' hc'
+      simp only [List.mem_cons] at hc'
+      rcases hc' with rfl | hc'
+      · intro i hi
+        simp only [hlen] at hi
+        simp only
+        rw [h5, List.getD_eq_getElem?_getD, List.getElem?_take, if_pos hi, ← List.getD_eq_getElem?_getD,
+          ht i (by omega), h1]
+      · exact ih'.1 c' hc'
+    · intro x
+      have hx := ih'.2 x
+      simp only [List.length_drop] at hx
+      constructor
+      · rintro ⟨c', hc', hin⟩
+        simp only [List.mem_cons] at hc'
+        rcases hc' with rfl | hc'
+        · unfold InPatch at hin; simp only [hlen, h1] at hin; omega
+        · have := hx.1 ⟨c', hc', hin⟩; omega
+      · intro hr
+        by_cases hlt : x < a + c.size
+        · exact ⟨c, by simp, by unfold InPatch; simp only [hlen, h1]; omega⟩
+        · obtain ⟨c', hc', hin⟩ := hx.2 (by omega)
+          exact ⟨c', by simp [hc'], hin⟩
+
+theorem foldl_execWrite (ws : List Chunk) : ∀ m : Mem,
+    ws.foldl execWrite m = applyAll m (ws.map (fun c => (c.addr, c.data))) := by
+  induction ws with
+  | nil => intro m; rfl
+  | cons w ws ih => intro m; simp only [List.foldl_cons, List.map_cons]; rw [ih]; rfl
+
+/-- **Write exactness, any order, with duplicates.** Executing the write commands generated for
+`(addr, data)` in any order, each at least once and any number of times, leaves exactly `data`
+at `[addr, addr + len)` and changes no other byte. -/
+theorem write_exact_any_order (buf addr : Nat) (data : List Nat) (m : Mem) (hb : 0 < buf)
+    (ws : List Chunk) (hsub : ∀ w ∈ ws, w ∈ write buf addr data)
+    (hall : ∀ c ∈ write buf addr data, c ∈ ws) :
+    ws.foldl execWrite m = writeMem m addr data := by
+  have hc := writeChunks_covers buf hb data.length addr data (Nat.le_refl _)
+  have hf := wcovers_facts (writeMem m addr data) buf _ _ _ hc (by
+    intro i hi
+    simp only [writeMem]
+    rw [if_pos (by omega)]; congr 1; omega)
+  rw [foldl_execWrite]
+  funext a
+  have sp := applyAll_spec (writeMem m addr data) (ws.map (fun c => (c.addr, c.data))) m (by
+    intro p hp
+    simp only [List.mem_map] at hp
+    obtain ⟨c, hc1, rfl⟩ := hp
+    exact hf.1 c (hsub c hc1)) a
+  by_cases hin : addr ≤ a ∧ a < addr + data.length
+  · obtain ⟨c, hc1, hc2⟩ := (hf.2 a).2 hin
+    exact sp.1 ⟨(c.addr, c.data), by simp only [List.mem_map]; exact ⟨c, hall c hc1, rfl⟩, hc2⟩
+  · rw [sp.2 (by
+      rintro ⟨p, hp, hpi⟩
+      simp only [List.mem_map] at hp
+      obtain ⟨c, hc1, rfl⟩ := hp
+      exact hin ((hf.2 a).1 ⟨c, hsub c hc1, hpi⟩))]
+    simp only [writeMem]; rw [if_neg hin]
+
+
+theorem rcovers_facts (m : Mem) (base buf : Nat) :
+    ∀ (cs : List Chunk) (a n : Nat), RCovers buf a n cs → base ≤ a →
+      (∀ c ∈ cs, Agrees (fun j => m (base + j)) (c.addr - base, readMem m c.addr c.size)) ∧
+      (∀ x, (∃ c ∈ cs, InPatch (c.addr - base, readMem m c.addr c.size) x) ↔
+        (a - base ≤ x ∧ x < a - base + n)) := by
+  intro cs
+  induction cs with
+  | nil =>
+    intro a n h _
+    simp only [RCovers] at h
+    subst h
+    simp
+  | cons c cs ih =>
+    intro a n h hba
+    obtain ⟨h1, h2, h3, h4, _, h6⟩ := h
+    have ih' := ih (a + c.size) (n - c.size) h6 (by omega)
+    have hlen : ∀ ad, (readMem m ad c.size).length = c.size := by simp [readMem]
+    refine ⟨?_, ?_⟩
+    · intro c' hc'
+      simp only [List.mem_cons] at hc'
+      rcases hc' with rfl | hc'
+      · intro i hi
+        simp only [hlen] at hi
+        simp only [readMem]
+        rw [List.getD_eq_getElem?_getD, List.getElem?_map, List.getElem?_range hi]
+        simp only [Option.map_some, Option.getD_some]
+        congr 1; omega
+      · exact ih'.1 c' hc'
+    · intro x
+      have hx := ih'.2 x
+      constructor
+      · rintro ⟨c', hc', hin⟩
+        simp only [List.mem_cons] at hc'
+        rcases hc' with rfl | hc'
+        · unfold InPatch at hin; simp only [hlen, h1] at hin; omega
+        · have := hx.1 ⟨c', hc', hin⟩; omega
+      · intro hr
+        by_cases hlt : x < a - base + c.size
+        · exact ⟨c, by simp, by unfold InPatch; simp only [hlen, h1]; omega⟩
+        · obtain ⟨c', hc', hin⟩ := hx.2 (by omega)
+          exact ⟨c', by simp [hc'], hin⟩
+
+theorem readMem_congr (f g : Mem) (a b n : Nat) (h : ∀ i, i < n → f (a + i) = g (b + i)) :
+    readMem f a n = readMem g b n := by
+  unfold readMem
+  apply List.map_congr_left
+  intro i hi
+  exact h i (List.mem_range.1 hi)
+
+theorem foldl_placeReply (m : Mem) (base : Nat) (cs : List Chunk) : ∀ b : Mem,
+    cs.foldl (placeReply m base) b =
+      applyAll b (cs.map (fun c => (c.addr - base, readMem m c.addr c.size))) := by
+  induction cs with
+  | nil => intro b; rfl
+  | cons w ws ih => intro b; simp only [List.foldl_cons, List.map_cons]; rw [ih]; rfl
+
+/-- **Read exactness, any completion order.** Storing the reply of every read command at its
+offset of the receive buffer - in any order, each at least once - yields exactly the bytes of
+memory `[addr, addr + len)`, whatever the buffer held before. -/
+theorem read_exact_any_order (buf addr len : Nat) (m : Mem) (hb : 0 < buf) (buffer0 : Mem)
+    (done : List Chunk) (hsub : ∀ c ∈ done, c ∈ read buf addr len)
+    (hall : ∀ c ∈ read buf addr len, c ∈ done) :
+    readMem (done.foldl (placeReply m addr) buffer0) 0 len = readMem m addr len := by
+  have hc := readChunks_covers buf hb len addr len (Nat.le_refl _)
+  have hf := rcovers_facts m addr buf _ _ _ hc (Nat.le_refl _)
+  rw [foldl_placeReply]
+  apply readMem_congr
+  intro i hi
+  have sp := applyAll_spec (fun j => m (addr + j))
+    (done.map (fun c => (c.addr - addr, readMem m c.addr c.size))) buffer0 (by
+    intro p hp
+    simp only [List.mem_map] at hp
+    obtain ⟨c, hc1, rfl⟩ := hp
+    exact hf.1 c (hsub c hc1)) (0 + i)
+  obtain ⟨c, hc1, hc2⟩ := (hf.2 (0 + i)).2 (by omega)
+  have := sp.1 ⟨_, by simp only [List.mem_map]; exact ⟨c, hall c hc1, rfl⟩, hc2⟩
+  rw [this]; congr 1; omega
+
+/-- **Read partition.** The read commands are consecutive from `addr`, non-empty, at most `buf`
+bytes each, cover exactly `len` bytes and carry the access type of the table. -/
+theorem read_partition (buf addr len : Nat) (hb : 0 < buf) : RCovers buf addr len (read buf addr len) :=
+  readChunks_covers buf hb len addr len (Nat.le_refl _)
+
+/-- **Write partition.** Likewise, and each command carries exactly its slice of the data. -/
+theorem write_partition (buf addr : Nat) (data : List Nat) (hb : 0 < buf) :
+    WCovers buf addr data (write buf addr data) :=
+  writeChunks_covers buf hb data.length addr data (Nat.le_refl _)
+
+
+/-- **Access type soundness.** A word access is used only when address and length are word
+aligned, a half-word access only when both are half-word aligned. -/
+theorem dtype_sound (addr size : Nat) :
+    (dtype addr size = 2 → addr % 4 = 0 ∧ size % 4 = 0) ∧
+    (dtype addr size = 1 → addr % 2 = 0 ∧ size % 2 = 0) ∧ dtype addr size ≤ 2 := by
+  rw [dtype_table_is_hardware_rule]
+  unfold dtypeSpec
+  refine ⟨?_, ?_, ?_⟩ <;> (repeat' split) <;> simp_all
+
+/-- link commands: consecutive whole words, word aligned, at most `buf` bytes -/
+def LCovers (buf : Nat) : Nat → List Nat → List Chunk → Prop
+  | _, data, [] => data = []
+  | a, data, c :: cs =>
+    c.addr = a ∧ 0 < c.size ∧ c.size ≤ buf ∧ c.size ≤ data.length ∧ c.size % 4 = 0 ∧ c.addr % 4 = 0 ∧
+      c.dt = 2 ∧ c.data = data.take c.size ∧ LCovers buf (a + c.size) (data.drop c.size) cs
+
+theorem linkWriteChunks_covers (buf : Nat) (hb : 4 ≤ buf) :
+    ∀ fuel addr (data : List Nat), data.length ≤ fuel → addr % 4 = 0 → data.length % 4 = 0 →
+      LCovers buf addr data (linkWriteChunks buf fuel addr data) := by
+  intro fuel
+  induction fuel with
+  | zero => intro addr data h _ _
+            have : data = [] := List.eq_nil_of_length_eq_zero (by omega)
+            subst this; simp [linkWriteChunks, LCovers]
+  | succ f ih =>
+    intro addr data h ha hd
+    unfold linkWriteChunks
+    by_cases hl : data.length > 0
+    · simp only [hl, if_true, LCovers]
+      refine ⟨trivial, by omega, by omega, by omega, by omega, ha, trivial, trivial, ?_⟩
+      exact ih _ _ (by simp only [List.length_drop]; omega) (by omega)
+        (by simp only [List.length_drop]; omega)
+    · have : data = [] := List.eq_nil_of_length_eq_zero (by omega)
+      subst this; simp [LCovers]
+
+/-- **Link write partition.** Rejected iff misaligned; otherwise whole-word consecutive commands
+carrying exactly the data. -/
+theorem link_write_partition (buf addr : Nat) (data : List Nat) (hb : 4 ≤ buf) :
+    (linkWrite buf addr data = .error .valueError ↔ (addr % 4 ≠ 0 ∨ data.length % 4 ≠ 0)) ∧
+    (∀ cs, linkWrite buf addr data = .ok cs → LCovers buf addr data cs) := by
+  unfold linkWrite
+  by_cases h1 : addr % 4 ≠ 0
+  · simp [h1]
+  · by_cases h2 : data.length % 4 ≠ 0
+    · simp [h1, h2]
+    · simp only [h1, h2, if_false, or_self, iff_false]
+      refine ⟨by simp, ?_⟩
+      intro cs hcs
+      cases hcs
+      exact linkWriteChunks_covers buf hb _ _ _ (Nat.le_refl _) (by omega) (by omega)
+
+/-- read variant: sizes only -/
+def LRCovers (buf : Nat) : Nat → Nat → List Chunk → Prop
+  | _, n, [] => n = 0
+  | a, n, c :: cs =>
+    c.addr = a ∧ 0 < c.size ∧ c.size ≤ buf ∧ c.size ≤ n ∧ c.size % 4 = 0 ∧ c.addr % 4 = 0 ∧
+      c.dt = 2 ∧ LRCovers buf (a + c.size) (n - c.size) cs
+
+theorem linkReadChunks_covers (buf : Nat) (hb : 4 ≤ buf) :
+    ∀ fuel addr len, len ≤ fuel → addr % 4 = 0 → len % 4 = 0 →
+      LRCovers buf addr len (linkReadChunks buf fuel addr len) := by
+  intro fuel
+  induction fuel with
+  | zero => intro addr len h _ _
+            have : len = 0 := by omega
+            subst this; simp [linkReadChunks, LRCovers]
+  | succ f ih =>
+    intro addr len h ha hd
+    unfold linkReadChunks
+    by_cases hl : len > 0
+    · simp only [hl, if_true, LRCovers]
+      refine ⟨trivial, by omega, by omega, by omega, by omega, ha, trivial, ?_⟩
+      exact ih _ _ (by omega) (by omega) (by omega)
+    · have : len = 0 := by omega
+      subst this; simp [LRCovers]
+
+/-- **Link read partition.** -/
+theorem link_read_partition (buf addr len : Nat) (hb : 4 ≤ buf) :
+    (linkRead buf addr len = .error .valueError ↔ (addr % 4 ≠ 0 ∨ len % 4 ≠ 0)) ∧
+    (∀ cs, linkRead buf addr len = .ok cs → LRCovers buf addr len cs) := by
+  unfold linkRead
+  by_cases h1 : addr % 4 ≠ 0
+  · simp [h1]
+  · by_cases h2 : len % 4 ≠ 0
+    · simp [h1, h2]
+    · simp only [h1, h2, if_false, or_self, iff_false]
+      refine ⟨by simp, ?_⟩
+      intro cs hcs
+      cases hcs
+      exact linkReadChunks_covers buf hb _ _ _ (Nat.le_refl _) (by omega) (by omega)
+
+/-- **Fill.** Word-aligned fills are one fill command whose execution stores the repeated
+little-endian word; anything else is a byte-wise write of `size` copies of the byte, exact in
+any order; a byte value that does not fit is rejected. -/
+theorem fill_exact (buf addr data size : Nat) (m : Mem) (hb : 0 < buf) :
+    match fill buf addr data size with
+    | .fillCmd a w s => a = addr ∧ w = data ∧ s = size ∧ addr % 4 = 0 ∧ size % 4 = 0 ∧
+        execFill m a w s = writeMem m addr ((List.replicate (size / 4) (le32 data)).flatten)
+    | .writes cs => (size % 4 ≠ 0 ∨ addr % 4 ≠ 0) ∧ data < 256 ∧
+        ∀ ws : List Chunk, (∀ w ∈ ws, w ∈ cs) → (∀ c ∈ cs, c ∈ ws) →
+          ws.foldl execWrite m = writeMem m addr (List.replicate size data)
+    | .structError => 256 ≤ data := by
+  unfold fill
+  by_cases h : size % 4 ≠ 0 ∨ addr % 4 ≠ 0
+  · simp only [h, if_true]
+    by_cases hd : data < 256
+    · simp only [hd, if_true]
+      refine ⟨trivial, trivial, ?_⟩
+      intro ws h1 h2
+      exact write_exact_any_order buf addr _ m hb ws h1 h2
+    · simp only [hd, if_false]; omega
+  · simp only [h, if_false]
+    refine ⟨trivial, trivial, trivial, by omega, by omega, rfl⟩
+
+/-! non-vacuity: a 10-byte write at an odd address with a 4-byte buffer needs three commands,
+executed here in reverse order with a duplicate -/
+example : (write 4 13 [1,2,3,4,5,6,7,8,9,10]).length = 3 := by decide
+example : let cs := write 4 13 [1,2,3,4,5,6,7,8,9,10]
+    readMem ((cs.reverse ++ cs).foldl execWrite (fun _ => 0)) 12 12 = [0,1,2,3,4,5,6,7,8,9,10,0] := by
+  decide
+example : (read 8 6 20).map (fun c => (c.addr, c.size, c.dt)) = [(6, 8, 1), (14, 8, 1), (22, 4, 1)] := by
+  decide
+
 end Rig.C07
